@@ -48,8 +48,42 @@ let rec split_threads (toks : string list) : string list list * string list =
     | x :: r -> (match cur with Some c -> go (Some (x :: c)) acc r | None -> failwith "tok before T") in
   ignore split_threads; go None [] toks
 
-let judge _name ins outs =
+(* MOD cases: "Q3lr" / "S3lr:204" - exchange number, then flags (l = the
+   context skips logging, r = it skips the round trip), then the status *)
+let mod_flags (t : string) : string * string =
+  let body = String.sub t 1 (String.length t - 1) in
+  let idpart, rest = match String.index_opt body ':' with
+    | Some i -> String.sub body 0 i, String.sub body i (String.length body - i)
+    | None -> body, "" in
+  let n = String.length idpart in
+  let rec cut i = if i > 0 && (idpart.[i-1] = 'l' || idpart.[i-1] = 'r') then cut (i-1) else i in
+  let c = cut n in
+  (String.make 1 t.[0] ^ String.sub idpart 0 c ^ rest, String.sub idpart c (n - c))
+
+let ends_with s suf =
+  let n = String.length s and m = String.length suf in n >= m && String.sub s (n - m) m = suf
+
+let rec judge _name ins outs =
   match ins with
+  | "MOD" :: optoks0 ->
+      (* an exchange whose context skips logging must answer "d" and leave the
+         log alone: it is dropped from the history given to the model; skipping
+         the round trip is not an input of the log at all *)
+      let pairs = (try List.combine optoks0 outs with Invalid_argument _ -> []) in
+      if pairs = [] && optoks0 <> [] then VDisagree "output-shape" else
+      let stripped = List.map (fun (o, x) ->
+          if o.[0] = 'Q' || o.[0] = 'S' then let (o', fl) = mod_flags o in (o', String.contains fl 'l', x)
+          else (o, false, x)) pairs in
+      (match List.find_opt (fun (_, skip, x) -> skip && x <> "d") stripped with
+       | Some (o, _, x) -> VPropfail ("skipped_exchange_answer", Printf.sprintf "op=%s got=%s" o x)
+       | None ->
+         let kept = List.filter (fun (_, skip, _) -> not skip) stripped in
+         judge _name ("SEQ" :: List.map (fun (o, _, _) -> o) kept) (List.map (fun (_, _, x) -> x) kept))
+  | ("SEQ" | "HTTP") :: optoks0 when List.exists (fun x -> ends_with x "!mutated") outs ->
+      let k = ref (-1) in
+      List.iteri (fun i x -> if !k < 0 && ends_with x "!mutated" then k := i) outs;
+      ignore optoks0;
+      VPropfail ("export_is_snapshot", Printf.sprintf "export-at-op=%d changed-by-later-operations got=%s" !k (List.nth outs !k))
   | ("SEQ" | "HTTP") :: optoks0 ->
       (* refused handler calls are no operations on the log: they must answer
          400 / 405 and are then dropped from the history given to the model *)
